@@ -132,3 +132,49 @@ def declare_recv(E):
                    raises={"TimeoutError": "True", "OSError": "True", "EOFError": "True", "SSHException": "True",
                            "struct.error": "ghost('last_ack') >= 2**32"},
                    returns="bytes")
+
+
+def declare_c20(E):
+    """flow-control conservation: every received data byte is either buffered for the application or counted as
+    consumed; the receive window is handed back before it can run dry"""
+    declare(E)
+    E.contract("paramiko.transport.Transport._send_user_message", params={"data": "obj:Message"}, returns="none",
+               raises={"EOFError": "True", "OSError": "True", "SSHException": "True"}, modifies=[])
+    m = monitor(E)
+    m.invariant.append("self.in_window_sofar <= self.in_window_threshold")
+    E.declare_class("paramiko.buffered_pipe.BufferedPipe", {})
+    E.declare_ghost(fed_total="int", counted_total="int")
+    E.contract("paramiko.buffered_pipe.BufferedPipe.feed", params={"data": "bytes"}, returns="none",
+               ghost={"fed_total": "ghost('fed_total') + len(data)"}, modifies=[], raises={})
+    STR = "m.packet.getvalue()[old(m.packet.tell()) + %d:old(m.packet.tell()) + %d + unpack32(m.packet.getvalue()[old(m.packet.tell()) + %d:old(m.packet.tell()) + %d])]"
+    LEN = "unpack32(m.packet.getvalue()[old(m.packet.tell()) + %d:old(m.packet.tell()) + %d])"
+    E.contract(C + "_feed", params={"m": "union[obj:Message,bytes]"},
+               requires={"well_formed": "True if isbytes(m) else (0 <= m.packet.tell() and len(m.packet.getvalue()) - m.packet.tell() >= 4 and "
+                                        "unpack32(m.packet.getvalue()[m.packet.tell():m.packet.tell() + 4]) <= len(m.packet.getvalue()) - m.packet.tell() - 4)"},
+               ensures={"all_data_bytes_buffered": "ghost('fed_total') == old(ghost('fed_total')) + (len(m) if isbytes(m) else " + LEN % (0, 4) + ")"},
+               returns="none", raises={})
+    E.contract(C + "_feed_extended", params={"m": "obj:Message"},
+               requires={"threshold_nonneg": "self.in_window_threshold >= 0",
+                         "well_formed": "0 <= m.packet.tell() and len(m.packet.getvalue()) - m.packet.tell() >= 8 and "
+                                        "unpack32(m.packet.getvalue()[m.packet.tell() + 4:m.packet.tell() + 8]) <= len(m.packet.getvalue()) - m.packet.tell() - 8"},
+               ensures={"every_byte_buffered_or_counted":
+                        "ghost('fed_total') + ghost('counted_total') == old(ghost('fed_total')) + old(ghost('counted_total')) + " + LEN % (4, 8)},
+               returns="none", raises={"EOFError": "True", "OSError": "True", "SSHException": "True",
+                                       # a credit >= 2**32 cannot be encoded (needs a receive window that large)
+                                       "struct.error": "True"})
+    E.contract(C + "_set_window", params={"window_size": "int", "max_packet_size": "int"},
+               requires={"positive_window": "window_size >= 1"},
+               ensures={"threshold_below_window": "0 <= self.in_window_threshold and self.in_window_threshold < self.in_window_size",
+                        "nothing_pending": "self.in_window_sofar == 0"},
+               returns="none", raises={})
+    E.contract(C + "_check_add_window", params={"n": "nat"},
+               requires={"threshold_nonneg": "self.in_window_threshold >= 0"},
+               ensures={
+                   "exact_accounting_while_open":
+                       "implies(not (self.closed or self.eof_received or not self.active),"
+                       " result + self.in_window_sofar == ghost('sync_in_window_sofar') + n)",
+                   "pending_credit_stays_at_or_below_threshold": "0 <= self.in_window_sofar and self.in_window_sofar <= self.in_window_threshold",
+                   "credit_nonneg": "result >= 0",
+               },
+               ghost={"counted_total": "ghost('counted_total') + n"},
+               returns="int", raises={})
